@@ -12,6 +12,11 @@ Mechanism A (universe export):
 3. The parent compares: totality; the observed key-equality pattern with TLC's Eq pattern for ALL ordered
    pairs (up to DontCare); the two interpreters' serialisations (natively handled types); and "a stored
    result is returned only for an Eq argument" for memoize / pipeline / map.
+4. The same for CALLS of a memoized function (HashKey section 4, CallSpec in MC_HashKey): TLC enumerates a
+   universe of calls f(*args, **kw) for two signatures (`*args, **kwargs` and `p, q=0, *, r=1`) that is closed
+   under "packing" (f(*t, **d) and f(t, d) are both members), decides SameArguments / CallDontCare for all
+   ordered pairs and exports the pattern; the children issue every ordered pair of calls on ONE memoized
+   function per signature and cache class and report which call was answered with which call's result.
 TLC's export decides; Python encodes, drives and compares sets of indices.
 """
 from __future__ import annotations
@@ -37,6 +42,17 @@ INVARIANT InvRepairedTotal InvRepairedSound InvRepairedComplete InvLawsAsOperato
 INVARIANT Emit
 """
 
+CALL_CFG = """SPECIFICATION CallSpec
+CONSTANTS Depth = {depth} Shard = {shard} NShards = {nshards}
+{override}INVARIANT InvCallWellFormed InvCallOracle
+INVARIANT InvCallTotal InvCallSound InvCallComplete InvCallLawsAsOperators
+INVARIANT CallEmit
+"""
+# per part: cfg text, tag of the exported records, fields that hold sets of indices, constant overridden for replay
+_PARTS = {"values": (MC_CFG, "VAL", ("eq", "dc", "mkc", "mkr"), "CONSTANT Universe <- ReplayUniverse\n"),
+          "calls": (CALL_CFG, "CALLV", ("eq", "same", "dc", "mk", "bare", "kwvalues"),
+                    "CONSTANT CallUniverse <- ReplayCallUniverse\n")}
+
 
 # ------------------------------------------------------------------------------------------------
 # the two importable classes that stand for "arbitrary picklable objects"
@@ -50,6 +66,15 @@ class PA:  # __eq__ by fields, no __hash__: keyed through the cloudpickle fallba
 class PB:  # hashable when its fields are: returned unchanged by to_hashable
     x: object
     y: object
+
+
+class CallObj:
+    """One call f(*args, **kwargs) of a memoized function with signature `sig` (HashKey!Call)."""
+
+    __slots__ = ("sig", "args", "kwargs")
+
+    def __init__(self, sig: str, args: tuple, kwargs: dict) -> None:
+        self.sig, self.args, self.kwargs = sig, args, kwargs
 
 
 _CLASSES = {"PA": PA, "PB": PB}
@@ -130,6 +155,8 @@ def build(v: dict):
         return pd.DataFrame(data, index=index, columns=cols)
     if t == "Obj":
         return _CLASSES[v["s"]](*[build(x) for x in a])
+    if t == "Call":
+        return CallObj(v["s"], build(a[0]), build(a[1]))
     raise ValueError(t)
 
 
@@ -153,6 +180,8 @@ def unbuild(o) -> dict:
         return _V("Bytes", s=o.decode("ascii"))
     if isinstance(o, (PA, PB)):
         return _V("Obj", s=type(o).__name__, a=[unbuild(o.x), unbuild(o.y)])
+    if isinstance(o, CallObj):
+        return _V("Call", s=o.sig, a=[unbuild(o.args), unbuild(o.kwargs)])
     if isinstance(o, tuple):
         return _V("Tuple", a=[unbuild(x) for x in o])
     if isinstance(o, list):
@@ -231,6 +260,9 @@ def show(v: dict) -> str:
         return f"{v['s']}({inner})"
     if t == "PyArray":
         return f"array({v['s']!r}, [{inner}])"
+    if t == "Call":
+        parts = [show(x) for x in a[0]["a"]] + [f"{p['a'][0]['s']}={show(p['a'][1])}" for p in a[1]["a"]]
+        return f"f_{v['s']}({', '.join(parts)})"
     return f"{t}({inner})"
 
 
@@ -469,19 +501,145 @@ def child_main(argv: list[str] | None = None) -> None:
     Path(argv[1]).write_text(json.dumps(out))
 
 
+
+# ------------------------------------------------------------------------------------------------
+# child interpreter, calls: ONE memoized function per signature and cache class, sequences of calls on it
+_SIG_TEXT = {"var": "def f(*args, **kwargs)", "fixed": "def f(p, q=0, *, r=1)"}
+
+
+class _Memo:
+    """A memoized function of the given signature; `n` counts real executions (the returned token), `got`
+    is what the function received at its last execution."""
+
+    def __init__(self, sig: str, cache_type: str, tmp: str) -> None:
+        from pipefunc import cache as pc
+
+        self.n = 0
+        self.got: tuple = ()
+        if sig == "var":
+            def body(*args, **kwargs):
+                self.n += 1
+                self.got = (args, kwargs)
+                return self.n
+        else:
+            def body(p, q=0, *, r=1):  # the defaults are HashKey!FixedDefault
+                self.n += 1
+                self.got = (p, q, r)
+                return self.n
+        self.cache = {"simple": lambda: pc.SimpleCache(),
+                      "lru": lambda: pc.LRUCache(shared=False, max_size=1 << 20),
+                      "hybrid": lambda: pc.HybridCache(shared=False, max_size=1 << 20),
+                      "disk": lambda: pc.DiskCache(tmp, with_lru_cache=False)}[cache_type]()
+        self.f = pc.memoize(cache=self.cache)(body)
+
+    def call(self, c: CallObj):
+        return self.f(*c.args, **c.kwargs)
+
+    def clear(self) -> None:
+        self.cache.clear()
+
+
+def child_calls_main(argv: list[str] | None = None) -> None:
+    argv = argv or sys.argv[1:]
+    import warnings
+
+    from pfverif import bootstrap  # noqa: F401
+
+    warnings.simplefilter("ignore")
+    inp = json.loads(Path(argv[0]).read_text())
+    vals = inp["values"]
+    n = len(vals)
+    A = [build(v) for v in vals]
+    B = [build(v) for v in vals]
+    out: dict = {"hashseed": os.environ.get("PYTHONHASHSEED"), "n": n}
+    out["roundtrip_bad"] = [i for i in range(n) if _norm(unbuild(A[i])) != _norm(vals[i])]
+    bound_bad: list = []
+    t0 = time.time()
+    for sig in sorted({v["s"] for v in vals}):
+        idxs = [i for i in range(n) if vals[i]["s"] == sig]
+        # every ordered pair on one function (SimpleCache): f(call i) on an empty cache, then every call j;
+        # the token tells whose result was returned.  Entries of earlier j stay: the history grows.
+        m = _Memo(sig, "simple", inp["tmp"])
+        hits, raises, hit_of = [], {}, {i: set() for i in idxs}
+        for i in idxs:
+            m.clear()
+            try:
+                tok = m.call(A[i])
+            except Exception as ex:  # noqa: BLE001
+                raises[i] = type(ex).__name__
+                continue
+            if _norm(unbuild(m.got)) != _norm(inp["bound"][i]):  # conformance of HashKey!Bound with Python's binding
+                bound_bad.append(i)
+            for j in idxs:
+                try:
+                    if m.call(B[j]) == tok:
+                        hits.append([i, j])
+                        hit_of[i].add(j)
+                except Exception as ex:  # noqa: BLE001
+                    raises[j] = type(ex).__name__
+        out[f"memoize_{sig}_simple_all"] = {"hits": hits, "raises": sorted(raises.items())}
+        # exact ordered pairs on the other cache classes: the partners TLC names (same call / same arguments /
+        # don't care), every partner that hit above, and three fixed others
+        for ct in inp["pair_caches"]:
+            sub = os.path.join(inp["tmp"], f"memo_{sig}_{ct}")
+            os.makedirs(sub, exist_ok=True)
+            m = _Memo(sig, ct, sub)
+            hits, raises, npairs = [], {}, 0
+            for pos, i in enumerate(idxs):
+                cand = set(inp["cand"][i]) | hit_of[i] | {idxs[(7 * pos + c) % len(idxs)] for c in (1, 2, 3)}
+                for j in sorted(cand):
+                    m.clear()
+                    try:
+                        m.call(A[i])
+                        before = m.n
+                        m.call(B[j])
+                    except Exception as ex:  # noqa: BLE001
+                        raises[i] = type(ex).__name__
+                        continue
+                    npairs += 1
+                    if m.n == before:
+                        hits.append([i, j])
+            out[f"memoize_{sig}_{ct}_pairs"] = {"hits": hits, "raises": sorted(raises.items()), "pairs": npairs}
+    out["bound_bad"] = bound_bad
+    out["t_calls"] = round(time.time() - t0, 2)
+    Path(argv[1]).write_text(json.dumps(out))
+
+
 # ------------------------------------------------------------------------------------------------
 # parent: TLC export
+class _Lane:
+    """What a background lane may use of the context: scratch directories, and TLC results queued for the main
+    thread (the four parts - values, random values, calls, random calls - are prepared side by side: TLC export
+    and child interpreters; everything that compares and reports runs in the main thread in a fixed order)."""
+
+    def __init__(self, ctx) -> None:
+        self.ctx, self.tlc = ctx, []
+
+    def workdir(self, name: str):
+        return self.ctx.workdir(name)
+
+    def add_tlc(self, r, what: str = ""):
+        self.tlc.append((r, what))
+        return r
+
+    def flush(self) -> None:
+        for r, what in self.tlc:
+            self.ctx.add_tlc(r, what)
+        self.tlc = []
+
+
 def export_universe(ctx, depth: int, nshards: int, override: str = "", module: str = "MC_HashKey",
-                    name: str = "mc") -> tuple[list[dict], dict]:
+                    name: str = "mc", part: str = "values") -> tuple[list[dict], dict]:
     from ..tlc import MachineryError, run_tlc
     from ..tracekit import parse_prints
+
+    cfg_text, rec_tag, index_fields, override_line = _PARTS[part]
 
     def one(shard: int):
         wd = ctx.workdir(f"{name}_{shard}")
         if override:
             (wd / f"{module}.tla").write_text(override)
-        cfg = MC_CFG.format(depth=depth, shard=shard, nshards=nshards,
-                            override="CONSTANT Universe <- ReplayUniverse\n" if override else "")
+        cfg = cfg_text.format(depth=depth, shard=shard, nshards=nshards, override=override_line if override else "")
         # several single-threaded JVMs run side by side: keep their GC / JIT helper threads few
         return run_tlc(module, cfg, wd, workers=1, allow_violation=False, heap="3g", timeout=1500,
                        env={"JAVA_TOOL_OPTIONS": "-XX:ParallelGCThreads=2 -XX:CICompilerCount=2"})
@@ -490,9 +648,9 @@ def export_universe(ctx, depth: int, nshards: int, override: str = "", module: s
     diag = {"CODED_COLLISION": [], "CODED_SPLIT": []}
     with ThreadPoolExecutor(max_workers=min(nshards, 16)) as ex:
         for shard, r in enumerate(ex.map(one, range(nshards))):
-            ctx.add_tlc(r, f"{module} depth={depth} shard {shard}/{nshards}")
+            ctx.add_tlc(r, f"{module} ({part}) depth={depth} shard {shard}/{nshards}")
             for tag, payload in parse_prints(r.prints):
-                if tag == "VAL":
+                if tag == rec_tag:
                     recs[payload["i"]] = payload
                 elif tag in diag:
                     diag[tag].append(payload)
@@ -501,20 +659,25 @@ def export_universe(ctx, depth: int, nshards: int, override: str = "", module: s
         raise MachineryError(f"{module}: exported indices are not 1..N (got {n} records)")
     vals = [recs[i] for i in range(1, n + 1)]
     for r in vals:  # 0-based indices from here on
-        for f in ("eq", "dc", "mkc", "mkr"):
+        for f in index_fields:
             r[f] = sorted(j - 1 for j in r[f])
     diag = {k: sorted([a - 1, b - 1] for a, b in v) for k, v in diag.items()}
     return vals, diag
 
 
 def run_children(ctx, vals: list[dict], seeds: tuple[int, int], pair_caches: list[str], pass_caches: list[str],
-                 name: str = "child") -> list[dict]:
+                 name: str = "child", part: str = "values") -> list[dict]:
     from .. import bootstrap
     from ..tlc import MachineryError
 
     wd = ctx.workdir(name)
     inp = {"values": [r["v"] for r in vals], "cand": [sorted(set(r["eq"]) | set(r["dc"])) for r in vals],
            "pair_caches": pair_caches, "pass_caches": pass_caches}
+    entry = "child_main"
+    if part == "calls":
+        entry = "child_calls_main"
+        inp["cand"] = [sorted(set(r["eq"]) | set(r["same"]) | set(r["dc"])) for r in vals]
+        inp["bound"] = [r["bound"] for r in vals]
     procs = []
     for k, seed in enumerate(seeds):
         tmp = wd / f"tmp{k}"
@@ -523,7 +686,7 @@ def run_children(ctx, vals: list[dict], seeds: tuple[int, int], pair_caches: lis
         fin.write_text(json.dumps(dict(inp, tmp=str(tmp))))
         env = bootstrap.child_env()
         env["PYTHONHASHSEED"] = str(seed)
-        procs.append((subprocess.Popen([sys.executable, "-c", "from pfverif.props import c15; c15.child_main()",
+        procs.append((subprocess.Popen([sys.executable, "-c", f"from pfverif.props import c15; c15.{entry}()",
                                         str(fin), str(fout)], env=env, stdout=subprocess.PIPE,
                                        stderr=subprocess.STDOUT, text=True), fout, seed))
     outs = []
@@ -541,6 +704,10 @@ def run_children(ctx, vals: list[dict], seeds: tuple[int, int], pair_caches: lis
         if o["roundtrip_bad"]:
             i = o["roundtrip_bad"][0]
             raise MachineryError(f"value encoder does not round-trip value {i}: {vals[i]['v']}")
+        if o.get("bound_bad"):
+            i = o["bound_bad"][0]
+            raise MachineryError(f"HashKey!Bound does not describe what the function receives for {show(vals[i]['v'])}: "
+                                 f"expected {show(vals[i]['bound'])}")
         outs.append(o)
     return outs
 
@@ -732,6 +899,92 @@ def compare(vals: list[dict], outs: list[dict]) -> list[dict]:
     return finds
 
 
+
+# ------------------------------------------------------------------------------------------------
+# calls: classification of a pair of calls (signatures only; never decides) and the comparator
+def _canon_val(v: dict) -> str:
+    """abstract value with the members of sets AND the items of plain mappings in a canonical order"""
+    a = [_canon_val(x) for x in v["a"]]
+    if v["t"] in ("Set", "FrozenSet", "Dict", "DefaultDict", "Counter"):
+        a = sorted(a)
+    return json.dumps([v["t"], v["s"], v["n"], a])
+
+
+def call_relation(v: dict, w: dict) -> str:
+    """how two different calls of one function are related (most specific first)"""
+    def parts(c):
+        return c["a"][0]["a"], c["a"][1]["a"]
+
+    def packed(c, d):  # c = f(t, k) positional-only with the tuple t = d's args and the dict k = d's kwargs
+        (ca, ck), (da, dk) = parts(c), parts(d)
+        return (not ck and len(ca) == 2 and ca[0]["t"] == "Tuple" and ca[1]["t"] == "Dict"
+                and _canon_val(ca[0]) == _canon_val(_V("Tuple", a=da)) and _canon_val(ca[1]) == _canon_val(_V("Dict", a=dk)))
+
+    def items_as_tuples(c, d):  # c's positionals = d's positionals + (name, value) tuples of d's keywords
+        (ca, ck), (da, dk) = parts(c), parts(d)
+        items = sorted(_canon_val(_V("Tuple", a=p["a"])) for p in dk)
+        return (not ck and dk and [_canon_val(x) for x in ca[:len(da)]] == [_canon_val(x) for x in da]
+                and sorted(_canon_val(x) for x in ca[len(da):]) == items)
+
+    (va, vk), (wa, wk) = parts(v), parts(w)
+    if packed(v, w) or packed(w, v):
+        return "positional_tuple_and_dict_vs_args_and_kwargs"
+    if items_as_tuples(v, w) or items_as_tuples(w, v):
+        return "positional_name_value_tuples_vs_keywords"
+    flat_v = [_canon_val(x) for x in va] + [_canon_val(p["a"][1]) for p in vk]
+    flat_w = [_canon_val(x) for x in wa] + [_canon_val(p["a"][1]) for p in wk]
+    names_v, names_w = sorted(p["a"][0]["s"] for p in vk), sorted(p["a"][0]["s"] for p in wk)
+    if len(va) != len(wa) and sorted(flat_v) == sorted(flat_w):
+        return "positional_vs_keyword_passing"
+    if len(va) == len(wa) and names_v != names_w and sorted(flat_v) == sorted(flat_w):
+        return "keyword_names"
+    if [_canon_val(x) for x in va] == [_canon_val(x) for x in wa]:
+        return "keyword_values" if names_v == names_w else "keywords"
+    if names_v == names_w and sorted(_canon_val(p) for p in vk) == sorted(_canon_val(p) for p in wk):
+        return "positional_order" if sorted(flat_v) == sorted(flat_w) else "positional_values"
+    return "other"
+
+
+def _driver_parts(name: str) -> tuple[str, str, str]:
+    _, sig, ct, mode = name.split("_")  # memoize_<sig>_<cache>_<all|pairs>
+    return sig, ct, mode
+
+
+def compare_calls(vals: list[dict], outs: list[dict]) -> list[dict]:
+    """Expected (TLC: same call `eq`, SameArguments `same`, CallDontCare `dc`) against the observed pattern of
+    "call j was answered with the result stored for call i", per driver (signature x cache class) and interpreter:
+    a hit is allowed only inside same | dc, and required inside eq - dc."""
+    n = len(vals)
+    allowed = [set(r["same"]) | set(r["dc"]) for r in vals]
+    required = [set(r["eq"]) - set(r["dc"]) for r in vals]
+    finds: list[dict] = []
+    for k, o in enumerate(outs):
+        for name, d in o.items():
+            if not (isinstance(d, dict) and "hits" in d):
+                continue
+            sig, _ct, _mode = _driver_parts(name)
+            hit = {(i, j) for i, j in d["hits"]}
+            raised = {i for i, _ in d["raises"]}
+            for i, j in sorted(hit):
+                if j not in allowed[i]:
+                    finds.append({"kind": "call_stale", "i": i, "j": j, "child": k, "driver": name,
+                                  "sig": {"check": "memoize_call", "clause": "stored_result_for_a_call_with_other_arguments",
+                                          "function": sig, "relation": call_relation(vals[i]["v"], vals[j]["v"])}})
+            for i in range(n):
+                if vals[i]["v"]["s"] != sig or i in raised:
+                    continue
+                for j in sorted(required[i]):
+                    if (i, j) not in hit and j not in raised:
+                        finds.append({"kind": "call_missed", "i": i, "j": j, "child": k, "driver": name,
+                                      "sig": {"check": "memoize_call", "clause": "same_call_not_answered_from_the_cache",
+                                              "function": sig, "written_differently": vals[i]["v"] != vals[j]["v"]}})
+            for i, exc in d["raises"]:
+                finds.append({"kind": "call_raise", "i": i, "j": None, "child": k, "driver": name, "observed": exc,
+                              "sig": {"check": "memoize_call", "clause": "memoized_call_raises", "function": sig,
+                                      "exc": exc}})
+    return finds
+
+
 def report(ctx, vals: list[dict], finds: list[dict], seen: set | None = None) -> None:
     """One ctx.violation per distinct signature (first witness + count); `seen` = signatures reported before."""
     seen = set() if seen is None else seen
@@ -755,13 +1008,22 @@ def report(ctx, vals: list[dict], finds: list[dict], seen: set | None = None) ->
                 "disk_key": "DiskCache file name (_pickle_key of the key) differs between interpreters for {v}",
                 "stale": "{drv}: result stored for {v} returned for the non-Eq argument {w}",
                 "drive_raise": "{drv}: cached call raises {obs} for argument {v}",
+                "call_stale": "{drv}: on one memoized function the call {w} was answered with the result stored for "
+                              "the call {v}, whose arguments are different",
+                "call_missed": "{drv}: the call {w} was not answered from the cache after the same call {v}",
+                "call_raise": "{drv}: the memoized call {v} raises {obs}",
                 "drive_error": "{drv}: {obs}"}[f["kind"]]
+        drv = f.get("driver", "")
+        if f["kind"].startswith("call_"):  # one signature for all cache classes: name them
+            drv = "memoize(%s) with %s" % (_SIG_TEXT[v["s"]], "/".join(sorted({_driver_parts(g["driver"])[1] for g in fs})))
         what = what.format(v=show(v), w=show(w) if w else "", obs=f.get("observed", f["sig"].get("exc", f["sig"].get("error"))),
-                           drv=f.get("driver", ""))
+                           drv=drv)
         ctx.violation(f["sig"], f"{what}  [{len(fs)} case(s) with this signature]",
                       {"kind": f["kind"], "v": v, "w": w, "expected": {
                           "eq": w is not None and f["j"] in vals[f["i"]]["eq"],
-                          "dontcare": w is not None and f["j"] in vals[f["i"]]["dc"]},
+                          "dontcare": w is not None and f["j"] in vals[f["i"]]["dc"]}
+                          | ({"same_arguments": w is not None and f["j"] in vals[f["i"]]["same"],
+                              "function": _SIG_TEXT[v["s"]]} if v["t"] == "Call" else {}),
                        "driver": f.get("driver"), "count": len(fs),
                        "more": [[show(vals[g["i"]]["v"]), show(vals[g["j"]]["v"]) if g["j"] is not None else None]
                                 for g in fs[1:6]]})
@@ -1045,15 +1307,20 @@ def depth_of(v: dict) -> int:
     return 1 + max((depth_of(x) for x in kids), default=0)
 
 
-def random_part(ctx, seeds: tuple[int, int], nbase: int, seen: set) -> list[dict]:
+def random_prepare(lane, seed: int, seeds: tuple[int, int], nbase: int) -> tuple:
     import random
 
-    rng = random.Random(1500 + ctx.seed)
+    rng = random.Random(1500 + seed)
     raw = random_universe(rng, nbase, 3)
     mod = ("---- MODULE MC_HashKeyRandom ----\nEXTENDS MC_HashKey\nRawValues == {%s}\n"
            "ReplayUniverse == {v \\in RawValues : WellFormed(v)}\n====\n" % ",\n  ".join(tla_value(v) for v in raw))
-    vals, diag = export_universe(ctx, 1, 1 if nbase <= 60 else 4, override=mod, module="MC_HashKeyRandom", name="rnd")
-    outs = run_children(ctx, vals, seeds, ["simple"], ["simple"], name="rnd_child")
+    vals, diag = export_universe(lane, 1, 1 if nbase <= 60 else 4, override=mod, module="MC_HashKeyRandom", name="rnd")
+    outs = run_children(lane, vals, seeds, ["simple"], ["simple"], name="rnd_child")
+    return raw, vals, diag, outs
+
+
+def random_finish(ctx, prep: tuple, seen: set) -> list[dict]:
+    raw, vals, diag, outs = prep
     finds = compare(vals, outs)
     report(ctx, vals, finds, seen)
     scheme_model_evidence(ctx, vals, diag, outs, key="scheme_models_random")
@@ -1071,6 +1338,179 @@ def random_part(ctx, seeds: tuple[int, int], nbase: int, seen: set) -> list[dict
     return finds
 
 
+
+# ------------------------------------------------------------------------------------------------
+# calls of a memoized function (HashKey section 4)
+def selftest_calls(ctx, vals: list[dict], outs: list[dict], base: list[dict]) -> None:
+    """Corrupt one expected bit / one observed bit of the call pattern: exactly that pair must be rejected."""
+    import copy
+
+    def fkey(f):
+        return (f["kind"], f["i"], f["j"], f["child"], f["driver"])
+
+    base_keys = {fkey(f) for f in base}
+    drivers = {k: sorted(name for name, d in o.items() if isinstance(d, dict) and "hits" in d) for k, o in enumerate(outs)}
+    allname = "memoize_var_simple_all"
+    hit0 = {(i, j) for i, j in outs[0][allname]["hits"]}
+    pick = next(((i, j) for i, r in enumerate(vals) if r["v"]["s"] == "var" for j in r["eq"]
+                 if j != i and j not in r["dc"] and (i, j) in hit0), None)
+    if pick is None:
+        ctx.selftest("calls: expected-corruption", False, "no pair of equal calls written differently that hit")
+        return
+    i, j = pick
+    # (1) expected: TLC's verdict "same call / same arguments" withdrawn for one ordered pair
+    v2 = copy.deepcopy(vals)
+    v2[i]["eq"].remove(j)
+    v2[i]["same"].remove(j)
+    new = {fkey(f) for f in compare_calls(v2, outs)} - base_keys
+    want = {("call_stale", i, j, k, name) for k in drivers for name in drivers[k] if name.startswith("memoize_var_")}
+    ctx.selftest("calls: expected-corruption(one SameArguments bit cleared)", new == want and len(want) >= 2,
+                 f"pair=({i},{j}) {show(vals[i]['v'])} / {show(vals[j]['v'])} new={sorted(map(str, new))[:6]}")
+    # (2) observed: one extra hit between calls with different arguments
+    k = next(k for k, r in enumerate(vals) if r["v"]["s"] == "var" and k not in vals[i]["same"] and k not in vals[i]["dc"]
+             and (i, k) not in hit0)
+    o2 = copy.deepcopy(outs)
+    o2[0][allname]["hits"].append([i, k])
+    new = {fkey(f) for f in compare_calls(vals, o2)} - base_keys
+    ctx.selftest("calls: observed-corruption(one hit added)", new == {("call_stale", i, k, 0, allname)},
+                 f"pair=({i},{k}) new={sorted(map(str, new))[:6]}")
+    # (3) observed: the hit of a repeated call removed
+    o3 = copy.deepcopy(outs)
+    o3[1][allname]["hits"].remove([i, j])
+    new = {fkey(f) for f in compare_calls(vals, o3)} - base_keys
+    ctx.selftest("calls: observed-corruption(one hit removed)", new == {("call_missed", i, j, 1, allname)},
+                 f"pair=({i},{j}) new={sorted(map(str, new))[:6]}")
+    # the law has teeth: on the two variant wrappers TLC itself exhibits calls with different arguments and one key
+    nb, nk = sum(len(r["bare"]) for r in vals), sum(len(r["kwvalues"]) for r in vals)
+    ex = next(([show(r["v"]), show(vals[r["bare"][0]]["v"])] for r in vals if r["bare"]), None)
+    ctx.selftest("calls: tlc-exhibits-collisions-of-the-variant-wrappers", nb > 0 and nk > 0,
+                 f"'(args, kwargs) if kwargs else args': {nb} ordered pairs, e.g. {ex}; 'args + kwargs.values()': {nk}")
+
+
+def calls_prepare(lane, depth: int, seeds: tuple[int, int], pair_caches: list[str]) -> tuple:
+    vals, _ = export_universe(lane, depth, 4 if depth == 1 else 16, name="calls", part="calls")
+    outs = run_children(lane, vals, seeds, pair_caches, [], name="calls_child", part="calls")
+    return vals, outs
+
+
+def calls_finish(ctx, prep: tuple, seen: set) -> None:
+    vals, outs = prep
+    finds = compare_calls(vals, outs)
+    report(ctx, vals, finds, seen)
+    selftest_calls(ctx, vals, outs, finds)
+    n = len(vals)
+    for r in vals:
+        ctx.case(r["v"], nontrivial=True)
+    by_sig = collections.Counter(r["v"]["s"] for r in vals)
+    ctx.evaluations += sum(c * c for c in by_sig.values()) * len(outs)
+    ctx.traces_validated += n
+    hit0 = collections.defaultdict(set)
+    for name, d in outs[0].items():
+        if name.endswith("_simple_all"):
+            for i, j in d["hits"]:
+                hit0[i].add(j)
+    ctx.extra["calls"] = {
+        "signatures": {s: _SIG_TEXT[s] for s in sorted(by_sig)}, "calls": dict(sorted(by_sig.items())),
+        "ordered_pairs_per_interpreter": sum(c * c for c in by_sig.values()),
+        "same_call_pairs_i_ne_j": sum(len(r["eq"]) - 1 for r in vals),
+        "same_arguments_pairs_i_ne_j": sum(len(r["same"]) - 1 for r in vals),
+        "dontcare_pairs": sum(len(r["dc"]) for r in vals),
+        "packed_twins": sum(1 for r in vals for j in r["bare"]),
+        "drivers": {name: {"hits": len(d["hits"])} | ({"pairs": d["pairs"]} if "pairs" in d else {})
+                    for name, d in sorted(outs[0].items()) if isinstance(d, dict) and "hits" in d},
+        "real_code_agrees_with_the_wrapper_as_coded": f"{sum(hit0[i] == set(r['mk']) for i, r in enumerate(vals))}/{n} rows",
+        "child_times_s": [o["t_calls"] for o in outs],
+        "findings_by_kind": dict(sorted(collections.Counter(f["kind"] for f in finds).items())),
+        "examples": [show(vals[i]["v"]) for i in (n // 5, n // 2, n - 3)]}
+
+
+def gen_call(rng) -> dict:
+    sig = "var" if rng.random() < 0.7 else "fixed"
+    na = rng.randrange(0, 4) if sig == "var" else rng.randrange(1, 3)
+    pool = ["q", "r", "x"] if sig == "var" else ["q", "r"] if na == 1 else ["r"]
+    names = rng.sample(pool, rng.randrange(0, min(len(pool), 2) + 1))
+    return _V("Call", s=sig, a=[_V("Tuple", a=[gen_value(rng, 2) for _ in range(na)]),
+                                _V("Dict", a=[_V("Pair", a=[_V("Str", s=k), gen_value(rng, 2)]) for k in names])])
+
+
+def mutate_call(rng, c: dict, how: str | None = None) -> dict:
+    """One look-alike of a call: the same material passed differently (packed into a positional tuple and dict,
+    unpacked, a positional passed by keyword or the reverse, a keyword passed as a (name, value) tuple, renamed,
+    keywords written in another order) or one argument replaced by a look-alike value."""
+    import copy
+
+    c = copy.deepcopy(c)
+    args, kw = c["a"][0]["a"], c["a"][1]["a"]
+    names = [p["a"][0]["s"] for p in kw]
+    free = [k for k in ("q", "r", "x") if k not in names]
+    how = how or rng.choice(["pack", "unpack", "pos2kw", "kw2pos", "kwitem2pos", "rename", "reverse_kw", "swap_args",
+                             "drop_kw", "value", "value"])
+    if how == "pack":
+        c["a"] = [_V("Tuple", a=[_V("Tuple", a=args), _V("Dict", a=kw)]), _V("Dict")]
+    elif how == "unpack" and not kw and len(args) == 2 and args[0]["t"] == "Tuple" and args[1]["t"] == "Dict" \
+            and all(p["a"][0]["t"] == "Str" for p in args[1]["a"]):
+        c["a"] = [_V("Tuple", a=args[0]["a"]), _V("Dict", a=args[1]["a"])]
+    elif how == "pos2kw" and args and free:
+        kw.append(_V("Pair", a=[_V("Str", s=free[0]), args.pop()]))
+    elif how == "kw2pos" and kw:
+        args.append(kw.pop(0)["a"][1])
+    elif how == "kwitem2pos" and kw:
+        args.append(_V("Tuple", a=kw.pop()["a"]))
+    elif how == "rename" and kw and free:
+        kw[rng.randrange(len(kw))]["a"][0] = _V("Str", s=free[0])
+    elif how == "reverse_kw" and len(kw) >= 2:
+        kw.reverse()
+    elif how == "swap_args" and len(args) >= 2:
+        args.reverse()
+    elif how == "drop_kw" and kw:
+        kw.pop()
+    else:
+        slots = [(args, i) for i in range(len(args))] + [(p["a"], 1) for p in kw]
+        if slots:
+            holder, i = rng.choice(slots)
+            holder[i] = mutate(rng, holder[i])
+    return c
+
+
+def random_calls_prepare(lane, seed: int, seeds: tuple[int, int], nbase: int) -> tuple:
+    """Seeded random calls with arguments of depth <= 2 (so the (args, kwargs) object has depth <= 3) plus, for each,
+    its packed twin and look-alike calls; the expected pattern for exactly these calls is computed by TLC."""
+    import random
+
+    rng = random.Random(2500 + seed)
+    raw: dict[str, dict] = {}
+    for _ in range(nbase):
+        c = gen_call(rng)
+        for x in [c, mutate_call(rng, c, "pack")] + [mutate_call(rng, c) for _ in range(3)]:
+            raw.setdefault(json.dumps(x, sort_keys=True), x)
+    mod = ("---- MODULE MC_HashKeyRandomCalls ----\nEXTENDS MC_HashKey\nRawCalls == {%s}\n"
+           "ReplayCallUniverse == {c \\in RawCalls : CallWellFormed(c)}\n====\n" % ",\n  ".join(tla_value(v) for v in raw.values()))
+    vals, _ = export_universe(lane, 1, 1 if nbase <= 40 else 4, override=mod, module="MC_HashKeyRandomCalls",
+                              name="rndcalls", part="calls")
+    outs = run_children(lane, vals, seeds, ["lru"], [], name="rndcalls_child", part="calls")
+    return raw, vals, outs
+
+
+def random_calls_finish(ctx, prep: tuple, seen: set) -> None:
+    raw, vals, outs = prep
+    finds = compare_calls(vals, outs)
+    report(ctx, vals, finds, seen)
+    n = len(vals)
+    for r in vals:
+        ctx.case(r["v"])
+    by_sig = collections.Counter(r["v"]["s"] for r in vals)
+    ctx.evaluations += sum(c * c for c in by_sig.values()) * len(outs)
+    ctx.traces_validated += n
+    ctx.extra["random_calls"] = {
+        "generated": len(raw), "well_formed_and_binding_per_spec": n, "calls": dict(sorted(by_sig.items())),
+        "max_depth_of_args_kwargs_object": max(depth_of(_V("Tuple", a=r["v"]["a"])) for r in vals),
+        "same_arguments_pairs_i_ne_j": sum(len(r["same"]) - 1 for r in vals),
+        "dontcare_pairs": sum(len(r["dc"]) for r in vals),
+        "packed_twins": sum(len(r["bare"]) for r in vals),
+        "findings_by_kind": dict(sorted(collections.Counter(f["kind"] for f in finds).items())),
+        "example": show(vals[n // 2]["v"])}
+
+
 def run(ctx) -> None:
     quick = ctx.tier == "quick"
     depth = 1 if quick else 2
@@ -1078,7 +1518,10 @@ def run(ctx) -> None:
     ctx.rule = ("case = one abstract Python value of the TLA+-defined universe (MC_HashKey: 2 atoms per scalar type, "
                 "containers of length <= 2 drawn from look-alike pools, depth <= %d), materialised twice in each of two "
                 "interpreters (PYTHONHASHSEED %d / %d); every ORDERED PAIR of values is compared (key equality vs Eq) "
-                "and driven through memoize; non-trivial = the value is a container/array/object (not a scalar)"
+                "and driven through memoize; non-trivial = the value is a container/array/object (not a scalar).  "
+                "Second universe (CallSpec): one case = one call f(*args, **kw) of a memoized function with signature "
+                "(*args, **kwargs) or (p, q=0, *, r=1), closed under packing (f(*t, **d) and f(t, d)); every ordered pair "
+                "of calls is issued on one memoized function per signature and cache class"
                 % (depth, *seeds))
     ctx.assumptions = ["TLC and the value encoder (abstract value -> Python object; round trip checked per value) are trusted",
                        "Python's == on keys is what the caches use (dict lookup: also hash equality is checked)",
@@ -1087,11 +1530,31 @@ def run(ctx) -> None:
                        "don't-care (either outcome accepted): numerically equal scalars of different numeric type; "
                        "deque.maxlen / defaultdict.default_factory / array typecode; Eq objects keyed by pickle whose "
                        "representation differs; pickle bytes of as-is frozensets (DiskCache file names)",
-                       "arbitrary picklable objects are represented by two importable dataclasses (eq-only PA, frozen PB)"]
-    vals, diag = export_universe(ctx, depth, 4 if quick else 16)
+                       "arbitrary picklable objects are represented by two importable dataclasses (eq-only PA, frozen PB)",
+                       "calls: the arguments of a call are what the function receives under Python's binding rules "
+                       "(HashKey!Bound; checked against the real function at every first execution); equal arguments passed "
+                       "differently (positionally / by keyword / defaulted) are don't-care, the same call must hit"]
+    def values_prepare(lane):
+        vals, diag = export_universe(lane, depth, 4 if quick else 16)
+        outs = run_children(lane, vals, seeds, pair_caches=["simple"] if quick else ["simple", "lru", "hybrid", "disk"],
+                            pass_caches=["simple"] if quick else ["simple", "lru"])
+        return vals, diag, outs
+
+    lanes = [_Lane(ctx) for _ in range(4)]
+    with ThreadPoolExecutor(max_workers=4) as pool:
+        futs = [pool.submit(values_prepare, lanes[0]),
+                pool.submit(random_prepare, lanes[1], ctx.seed, seeds, 40 if quick else 150),
+                # calls of a memoized function: positional AND keyword arguments (HashKey section 4)
+                pool.submit(calls_prepare, lanes[2], depth, seeds, ["lru", "hybrid", "disk"]),
+                pool.submit(random_calls_prepare, lanes[3], ctx.seed, seeds, 25 if quick else 100)]
+        preps = []
+        for lane, fut in zip(lanes, futs):  # wait in this order; TLC runs are registered in this order
+            try:
+                preps.append(fut.result())
+            finally:
+                lane.flush()
+    vals, diag, outs = preps[0]
     n = len(vals)
-    outs = run_children(ctx, vals, seeds, pair_caches=["simple"] if quick else ["simple", "lru", "hybrid", "disk"],
-                        pass_caches=["simple"] if quick else ["simple", "lru"])
     finds = compare(vals, outs)
     seen: set = set()
     report(ctx, vals, finds, seen)
@@ -1102,7 +1565,9 @@ def run(ctx) -> None:
                  f"not total: {sum(1 for r in vals if r['mprob'])} values, collisions: {len(diag['CODED_COLLISION'])} ordered pairs")
     scheme_model_evidence(ctx, vals, diag, outs)
     encoder_attribute_evidence(ctx, vals, outs)
-    random_part(ctx, seeds, 40 if quick else 150, seen)
+    random_finish(ctx, preps[1], seen)
+    calls_finish(ctx, preps[2], seen)
+    random_calls_finish(ctx, preps[3], seen)
 
     for r in vals:
         ctx.case(r["v"], nontrivial=r["v"]["t"] not in ("Int", "Bool", "Float", "Str", "Bytes"))
@@ -1132,6 +1597,28 @@ def tla_value(v: dict) -> str:
             % (json.dumps(v["t"]), json.dumps(v["s"]), v["n"], ", ".join(tla_value(x) for x in v["a"])))
 
 
+def _replay_calls(ctx, rep: dict, values: list[dict]) -> int:
+    """The witness calls alone: TLC decides SameArguments / CallDontCare on this universe, two fresh
+    interpreters issue the calls on one memoized function per cache class, the same comparator reports."""
+    mod = ("---- MODULE MC_HashKeyReplayCalls ----\nEXTENDS MC_HashKey\nReplayCallUniverse == {%s}\n====\n"
+           % ",\n  ".join(tla_value(v) for v in values))
+    vals, _ = export_universe(ctx, 1, 1, override=mod, module="MC_HashKeyReplayCalls", name="replay", part="calls")
+    outs = run_children(ctx, vals, (101, 20202), ["lru", "hybrid", "disk"], [], name="replay_child", part="calls")
+    finds = compare_calls(vals, outs)
+    for r in vals:
+        print("call", r["i"] - 1, show(r["v"]), "of", _SIG_TEXT[r["v"]["s"]], "| receives", show(r["bound"]),
+              "| same call as", r["eq"], "same arguments as", r["same"], "don't-care with", r["dc"])
+    for k, o in enumerate(outs):
+        for name, d in sorted(o.items()):
+            if isinstance(d, dict) and "hits" in d:
+                print(f"interpreter {k} {name}: answered-from-cache pairs [stored, asked] = {d['hits']} raises={d['raises']}")
+    kinds = sorted({f["kind"] for f in finds})
+    same = any(f["sig"] == rep["sig"] for f in finds)
+    print("replay:", f"VIOLATION reproduced ({kinds})" if finds else "no violation on this witness",
+          "" if not finds else f"[same signature: {same}]")
+    return 1 if finds else 0
+
+
 def replay(rep: dict) -> int:
     """Re-run the witness pair: TLC decides Eq / DontCare on a two-value universe, two fresh interpreters
     compute the real keys, the same comparator reports."""
@@ -1141,6 +1628,11 @@ def replay(rep: dict) -> int:
     values = [w["v"]] + ([w["w"]] if w.get("w") else [])
     ctx = Ctx(PROPERTY, "quick", 0)
     ctx.findings = []
+    if w["v"]["t"] == "Call":
+        try:
+            return _replay_calls(ctx, rep, values)
+        finally:
+            ctx.cleanup()
     try:
         mod = ("---- MODULE MC_HashKeyReplay ----\nEXTENDS MC_HashKey\nReplayUniverse == {%s}\n====\n"
                % ",\n  ".join(tla_value(v) for v in values))
